@@ -319,6 +319,9 @@ def _execute(case, ctx, quiet=False):
         a = _call(A, op, A.spaces[si] if op['op'] == 'eval' else None)
         with boot.pristine_context():
             b = _call(B, op, B.spaces[si] if op['op'] == 'eval' else None)
+        if op['op'] == 'eval' and history.strings_too_big(A.spaces[si]):
+            ctx.stats['stopped_string_growth'] += 1
+            break
         if A.tainted:
             ctx.stats['stopped_after_address_text'] += 1
             break           # a program stringified a function: from here on the universes differ by memory addresses only
